@@ -16,7 +16,11 @@ const (
 )
 
 //verif:guarded TCPGroupCtl mu groups
-//verif:guarded TCPGroup mu group groupKey addr port realPort acceptCh tcpLn lns
+//verif:guarded TCPGroup mu group groupKey addr port realPort lns closed
+//verif:guarded TCPMuxGroupCtl mu groups
+//verif:guarded TCPMuxGroup mu group groupKey domain routeByHTTPUser username password lns closed
+//verif:guarded HTTPGroupController mu groups
+//verif:guarded HTTPGroup mu group groupKey domain location routeByHTTPUser createFuncs pxyNames closed
 
 // Monitor invariant of the tcp group table: the map exists; every registered
 // group is wired to this controller.
@@ -59,9 +63,13 @@ func verif_TCPGroupCtl_Listen(tgc *TCPGroupCtl, proxyName string, group string, 
 func verif_TCPGroup_Listen(tg *TCPGroup, proxyName string, group string, groupKey string, addr string, port int) {
 	n0 := len(tg.lns)
 	g0, k0, a0, p0, rp0 := tg.group, tg.groupKey, tg.addr, tg.port, tg.realPort
+	dead := tg.closed
 	verif.ResetEvents()
 	ln, realPort, err := tg.Listen(proxyName, group, groupKey, addr, port)
-	if n0 == 0 {
+	if dead {
+		verif.Ensures(err == errGroupClosed, "dead_group_refuses_join")
+		verif.Ensures(len(tg.lns) == n0 && !verif.Called(evAcquire) && !verif.Called("net.Listen"), "dead_group_untouched")
+	} else if n0 == 0 {
 		acquired := verif.Called(evAcquire) && verif.RetErr(evAcquire, 1) == nil
 		p := verif.RetInt(evAcquire, 0)
 		verif.Ensures(verif.CallCount(evAcquire) <= 1, "first_acquires_at_most_once")
@@ -87,5 +95,72 @@ func verif_TCPGroup_Listen(tg *TCPGroup, proxyName string, group string, groupKe
 			verif.Ensures(len(tg.lns) == n0, "refused_join_leaves_members")
 		}
 		verif.Ensures(tg.group == g0 && tg.groupKey == k0 && tg.addr == a0 && tg.port == p0 && tg.realPort == rp0, "join_leaves_params")
+	}
+}
+
+// ---------------------------------------------------------------- C13: group lifecycle
+
+// Monitor invariant of a tcp group: a live group has an open accept channel; a
+// group with members is live and has its real listener; a dead group has no
+// members. (This is what makes "close the channel once" provable.)
+//
+//verif:invariant TCPGroup mu
+func (tg *TCPGroup) verifInvLive() bool {
+	return (tg.closed || (tg.acceptCh != nil && !verif.Closed(tg.acceptCh))) &&
+		(len(tg.lns) == 0 || (!tg.closed && tg.tcpLn != nil))
+}
+
+//verif:contract ~/server/group.NewTCPGroup
+//verif:props C13
+func verif_NewTCPGroup(ctl *TCPGroupCtl) {
+	tg := NewTCPGroup(ctl)
+	verif.Ensures(tg != nil && tg.verifInvLive() && tg.ctl == ctl && len(tg.lns) == 0 && !tg.closed, "establishes_invariant")
+}
+
+// The last leave closes the accept channel exactly once, closes the real
+// listener, gives the port back and removes the group from the controller; a
+// leave that does not empty the group does none of that; no leave can panic.
+//
+//verif:contract (*~/server/group.TCPGroup).CloseListener
+//verif:props C13 C10 C16
+func verif_TCPGroup_CloseListener(tg *TCPGroup, ln *TCPGroupListener) {
+	n0 := len(tg.lns)
+	dead := tg.closed
+	ch, port, name := tg.acceptCh, tg.realPort, tg.group
+	verif.ResetEvents()
+	tg.CloseListener(ln)
+	verif.Ensures(len(tg.lns) == n0 || len(tg.lns) == n0-1, "removes_at_most_one_member")
+	if len(tg.lns) == 0 && !dead {
+		verif.Ensures(tg.closed && verif.Closed(ch), "last_leave_closes_channel")
+		verif.Ensures(verif.CalledWith(evRelease, 1, port) && verif.CallCount(evRelease) == 1, "last_leave_releases_port_once")
+		verif.Ensures(verif.CalledWith("TCPGroupCtl).RemoveGroup", 1, name), "last_leave_removes_group")
+		verif.Ensures(verif.Called("Listener).Close"), "last_leave_closes_listener")
+	} else {
+		verif.Ensures(!verif.Called(evRelease) && !verif.Called("TCPGroupCtl).RemoveGroup"), "other_leaves_release_nothing")
+		verif.Ensures(tg.closed == dead, "other_leaves_keep_state")
+	}
+}
+
+//verif:contract (*~/server/group.TCPGroupCtl).RemoveGroup
+//verif:props C13 C10
+func verif_TCPGroupCtl_RemoveGroup(tgc *TCPGroupCtl, group string, q string) {
+	tab0 := verif.Snap(tgc.groups)
+	tgc.RemoveGroup(group)
+	verif.Ensures(!verif.Has(tgc.groups, group), "name_released")
+	if q != group {
+		verif.Ensures(verif.Has(tgc.groups, q) == verif.Has(tab0, q) && tgc.groups[q] == tab0[q], "other_groups_untouched")
+	}
+}
+
+// The worker hands every accepted connection to a member, or closes it when the
+// hand-off fails (the group died meanwhile): never left open without a peer.
+//
+//verif:contract (*~/server/group.TCPGroup).worker
+//verif:props C11 C13 C16
+func verif_TCPGroup_worker(tg *TCPGroup) {
+	verif.ResetEvents()
+	tg.worker()
+	if verif.Recovered() {
+		verif.Ensures(verif.CalledWith("net.Conn).Close", 0, verif.Ret[net.Conn]("Listener).Accept", 0)), "failed_handoff_closes_connection")
 	}
 }
